@@ -109,7 +109,10 @@ func (s *l2server) takeLog(id string) []string {
 	return l
 }
 
-func (s *l2server) close() { s.srv.Close() }
+func (s *l2server) close() {
+	s.srv.CloseClientConnections()
+	s.srv.Close()
+}
 
 // ---------------------------------------------------------------- legacy client
 
